@@ -195,7 +195,6 @@ theorem aggUpdateRow_eq {O : Oracles} {q : AggStmt} {env : Env} {st st' : AggSta
     | some f =>
       simp only [hf] at hv
       obtain ⟨v, hv1, hv2⟩ := bind_ok hv
-      simp [pure] at hv2
       simp [hv1, Spec.Agg.okOf, hv2]
   cases valid with
   | false =>
